@@ -14,7 +14,15 @@ import time
 
 VERIF = os.path.dirname(os.path.dirname(os.path.abspath(__file__)))
 REPO = os.environ.get("VERIF_REPO", "/repo")
-BUILD = os.path.join(VERIF, "build")
+# Checks always build /repo's working tree into build/. A different tree (VERIF_REPO=<scratch worktree>, used only to try
+# the checks against seeded changes without touching /repo) gets its own build, evidence and replay directories so that
+# nothing it produces can be mistaken for a result about /repo.
+if os.path.realpath(REPO) == "/repo":
+    BUILD = os.path.join(VERIF, "build")
+    OUT = VERIF
+else:
+    BUILD = os.path.join(VERIF, "build", "alt-" + hashlib.sha256(os.path.realpath(REPO).encode()).hexdigest()[:10])
+    OUT = os.path.join(BUILD, "out")
 SRC = os.path.join(REPO, "src", "qtlogger")
 NCPU = os.cpu_count() or 4
 
@@ -187,13 +195,13 @@ def seed():
 
 
 def write_evidence(prop, tier, level, coverage, wall_s, violations, assumptions):
-    os.makedirs(os.path.join(VERIF, "evidence"), exist_ok=True)
+    os.makedirs(os.path.join(OUT, "evidence"), exist_ok=True)
     ev = {
         "property_id": prop, "tier": tier, "seed": seed(), "level": level,
         "coverage": coverage, "assumptions": assumptions, "wall_s": round(wall_s, 2),
         "violations": violations,
     }
-    p = os.path.join(VERIF, "evidence", prop + ".json")
+    p = os.path.join(OUT, "evidence", prop + ".json")
     tmp = p + ".tmp"
     with open(tmp, "w") as f:
         json.dump(ev, f, indent=1, ensure_ascii=False)
@@ -212,7 +220,7 @@ def known_findings(prop):
 
 
 def write_replay(prop, name, payload):
-    d = os.path.join(VERIF, "replays", prop)
+    d = os.path.join(OUT, "replays", prop)
     os.makedirs(d, exist_ok=True)
     p = os.path.join(d, name + ".json")
     with open(p, "w") as f:
